@@ -19,6 +19,17 @@ let cls_name = function Model.CNone -> "none" | Model.CDiscard -> "discard" | Mo
 let run line =
   match Sx.parse line with
   | [Sx.A "react"; r; fs] -> cls_name (Model.react (Sx.atom r = "1") (List.map fault_of (Sx.list fs)))
+  | [Sx.A "react"; r; fs; Sx.L (Sx.A "attrs" :: names)] ->
+      (* also: which attributes of the UPDATE stay on the route (kept_attrs) *)
+      let faults = List.map fault_of (Sx.list fs) in
+      let ocaml_string (cs : Model.string) =
+        let b = Buffer.create 16 in
+        let rec go = function Model.EmptyString -> () | Model.String (Model.Ascii (b0, b1, b2, b3, b4, b5, b6, b7), r) ->
+          let v k x = if x then 1 lsl k else 0 in
+          Buffer.add_char b (Char.chr (v 0 b0 + v 1 b1 + v 2 b2 + v 3 b3 + v 4 b4 + v 5 b5 + v 6 b6 + v 7 b7)); go r in
+        go cs; Buffer.contents b in
+      let kept = Model.kept_attrs faults (List.map (fun n -> coq_string (Sx.atom n)) names) in
+      cls_name (Model.react (Sx.atom r = "1") faults) ^ " kept " ^ String.concat " " (List.map ocaml_string kept)
   | _ -> "err unknown-op"
 let () =
   try
